@@ -90,6 +90,10 @@ func readFileLines(filename string, startLine, endLine int) (string, error) {
 	defer f.Close()
 
 	scanner := bufio.NewScanner(f)
+	// The default token limit is 64 KiB: a single longer line (minified code, a
+	// license stored on one line) made Scan fail and the whole JSON report was
+	// lost. Allow lines up to 1 GiB.
+	scanner.Buffer(make([]byte, 0, bufio.MaxScanTokenSize), 1<<30)
 	lines := ""
 	i := 0
 	for scanner.Scan() {
